@@ -278,13 +278,31 @@ Definition byaxis_shape (shape : list Z) (i : aidx) : res (list Z) :=
   | AList is_ => select_list shape is_
   end.
 
-(* non-array weightings are passed on unchanged; array weightings are indexed along the
-   FIRST axis with the same index expression, which only fits in degenerate cases
-   (recorded finding) -- modelled as unsupported here *)
+(* weighting.array[indices]: the same index expression applied to the FIRST axis of the
+   weighting array (whose shape is the space shape) *)
+Definition arr_index_shape (shape : list Z) (i : aidx) : res (list Z) :=
+  match shape with
+  | [] => ErrIndex
+  | n :: tail =>
+      match i with
+      | AInt k => rmap (fun _ => tail) (norm_index n k)
+      | ASlice s => rmap (fun ps => Z.of_nat (length ps) :: tail) (slice_positions n s)
+      | AList is_ => rmap (fun ps => Z.of_nat (length ps) :: tail) (rall (map (norm_index n) is_))
+      end
+  end.
+
+Definition fresh_id : Z := (-1)%Z.
+
+(* non-array weightings are passed on unchanged; an array weighting is replaced by a NEW
+   NumpyTensorSpaceArrayWeighting over array[indices], which the constructor accepts only if
+   that happens to have the new shape (recorded finding byaxis-array-weighting) *)
 Definition tsp_byaxis (t : tsp T) (i : aidx) : res (tsp T) :=
   rbind (byaxis_shape (ts_shape t) i) (fun sh =>
     match ts_w t with
-    | WArray _ _ _ => ErrValue
+    | WArray _ _ e =>
+        rbind (arr_index_shape (ts_shape t) i) (fun ash =>
+          rbind (mk_tsp sh (ts_dtype t) (Some (WArray KNpy fresh_id e))) (fun t' =>
+            if Zs_eqb ash sh then Ok t' else ErrValue))
     | w => mk_tsp sh (ts_dtype t) (Some w)
     end).
 
